@@ -208,7 +208,9 @@ def groups_cfg(spec):
         text += _get_lines("", setup["parent"], setup["parent_level"], producers[setup["parent"]][1], 24, specific=False)
         text += f"                        set_state_{setup['level']} = {setup['state']}\n"
         if setup["removable"]:
-            text += f"                        unset_mode_{setup['level']} = fi\n"
+            # both spellings mark the state for removal: typed by level, or generic for all objects of the test
+            generic = int(setup["name"][1:]) % 2 == 0 if setup["name"][1:].isdigit() else False
+            text += "                        unset_mode = fi\n" if generic else f"                        unset_mode_{setup['level']} = fi\n"
     for leaf in spec["leaves"]:
         text += f"    - {leaf['name']}:\n        type = leaf_{leaf['name']}\n        vms = {' '.join(leaf['vms'])}\n"
         text += f"        test_timeout = {leaf['test_timeout']}\n"
